@@ -22,25 +22,40 @@ def mir_path(repo="/repo", verbose=True):
     if os.path.exists(out) and os.path.getsize(out) > 1000000:
         return out, 0.0
     t0 = time.time()
+    # one dump at a time: checks that start together wait for the first one's dump instead of racing on the cache file
+    import fcntl
+    lock = open(os.path.join(CACHE, hs + ".lock"), "w")
+    fcntl.flock(lock, fcntl.LOCK_EX)
+    if os.path.exists(out) and os.path.getsize(out) > 1000000:
+        lock.close()
+        return out, time.time() - t0
     scratch = tempfile.mkdtemp(prefix="falcon_mir_")
+    tmp = out + f".{os.getpid()}.tmp"
     try:
         dst = os.path.join(scratch, "repo")
         shutil.copytree(repo, dst, ignore=shutil.ignore_patterns("target", ".git"))
         env = dict(os.environ, CARGO_NET_OFFLINE="true", CARGO_TARGET_DIR=os.path.join(scratch, "target"))
         env.pop("RUSTFLAGS", None)
-        with open(out + ".tmp", "w") as f:
+        with open(tmp, "w") as f:
             p = subprocess.run(["cargo", "+nightly", "rustc", "--offline", "--lib", "--", "-Zunpretty=mir", "-C", "debug-assertions=off", "-C", "overflow-checks=on"],
                                cwd=dst, env=env, stdout=f, stderr=subprocess.PIPE, text=True)
         if p.returncode != 0:
             sys.stderr.write(p.stderr[-3000:])
             raise SystemExit("BUILD-FAILED: MIR dump of /repo failed (exit 3)")
-        os.replace(out + ".tmp", out)
+        os.replace(tmp, out)
         # keep the cache small
         olds = sorted(glob.glob(os.path.join(CACHE, "*.mir")), key=os.path.getmtime)
         for o in olds[:-3]:
             os.remove(o)
+        for o in glob.glob(os.path.join(CACHE, "*.lock")):
+            if not o.endswith(hs + ".lock"):
+                try: os.remove(o)
+                except OSError: pass
     finally:
         shutil.rmtree(scratch, ignore_errors=True)
+        if os.path.exists(tmp):
+            os.remove(tmp)
+        lock.close()
     dt = time.time() - t0
     if verbose:
         print(f"[mir] dumped MIR of /repo in {dt:.0f}s ({os.path.getsize(out) // 1000} kB)", flush=True)
